@@ -5,6 +5,9 @@ import (
 	"fmt"
 	"io"
 	"net"
+	"os"
+	"strings"
+	"syscall"
 	"time"
 )
 
@@ -136,23 +139,79 @@ func (s *stream) cutPositions(blockFilter func(k int) bool) []int {
 
 var errGuard = errors.New("verif: step guard")
 
+// What a short read may come with.
+const (
+	kPlain       uint8 = iota // (n, nil)
+	kZero                     // (n, nil) and then one (0, nil)
+	kErrWithData              // (n, ignorable error): the io.Reader contract allows data AND an error
+	kErrAlone                 // (n, nil) and then one (0, ignorable error)
+)
+
+// errRefused is the error the UDP transports' ignoreError predicate accepts (what a connected UDP
+// socket reports after an ICMP port-unreachable): "read udp: recvfrom: connection refused".
+var errRefused error = &net.OpError{Op: "read", Net: "udp", Err: os.NewSyscallError("recvfrom", syscall.ECONNREFUSED)}
+
+// udpIgnoreError is, verbatim, the predicate that unicast-udp-transport.go and
+// multicast-udp-transport.go pass to readTlvStream (an anonymous closure there, so it cannot be
+// called; checkPredicateSource makes sure the repository still contains exactly this expression).
+func udpIgnoreError(err error) bool {
+	return strings.Contains(err.Error(), "connection refused")
+}
+
+const predicateSource = `return strings.Contains(err.Error(), "connection refused")`
+
+// checkPredicateSource: "" if both UDP transports still pass the predicate reproduced above.
+func checkPredicateSource() string {
+	root := os.Getenv("VERIF_REPO_DIR")
+	if root == "" {
+		root = "/repo"
+	}
+	for _, f := range []string{"fw/face/unicast-udp-transport.go", "fw/face/multicast-udp-transport.go"} {
+		b, err := os.ReadFile(root + "/" + f)
+		if err != nil {
+			return err.Error()
+		}
+		src := string(b)
+		i := strings.Index(src, "readTlvStream(")
+		if i < 0 || !strings.Contains(src[i:], predicateSource) {
+			return f + " no longer passes `" + predicateSource + "` to readTlvStream: update udpIgnoreError in harness/c11/stream.go"
+		}
+	}
+	return ""
+}
+
+// usesErr: does this script ever answer with the ignorable error?
+func (r *scriptReader) usesErr() bool {
+	if r.useMask && r.errMask != 0 {
+		return true
+	}
+	for i := 0; i < r.ncuts; i++ {
+		if r.kind[i] >= kErrWithData {
+			return true
+		}
+	}
+	return false
+}
+
 // scriptReader returns the stream in scripted chunks. Default: as many bytes as the caller's
-// buffer takes. cuts: ascending offsets at which a read must end. zeroAt: offsets (subset of
-// cuts) after which one (0, nil) read is returned before continuing. chunk > 0: uniform chunks.
-// mask: partition of a short stream (bit i set = a read ends after byte i+1).
+// buffer takes. cuts: ascending offsets at which a read must end; kind[i] says what else happens
+// there (see the kind constants). chunk > 0: uniform chunks. mask: partition of a short stream
+// (bit i set = a read ends after byte i+1); errMask: the reads ending at those bits are returned
+// together with the ignorable error.
 type scriptReader struct {
 	data    []byte
 	cuts    [3]int
-	zero    [3]bool
+	kind    [3]uint8
 	ncuts   int
 	chunk   int
 	useMask bool
 	mask    uint32
+	errMask uint32
 	eofWith bool // informational mode: the last chunk is returned together with io.EOF
 
 	pos       int
 	ci        int
-	pendZero  bool
+	pend      uint8 // next Read answers (0, nil) [kZero] or (0, ignorable error) [kErrAlone]
 	steps     int
 	maxSteps  int
 	emptyBuf  int // number of Read calls with len(p) == 0
@@ -167,7 +226,7 @@ func (r *scriptReader) reset(data []byte) {
 }
 
 func (r *scriptReader) arm() {
-	r.pos, r.ci, r.pendZero, r.steps, r.emptyBuf, r.afterEOF, r.guardTrip, r.eofSeen = 0, 0, false, 0, 0, 0, false, false
+	r.pos, r.ci, r.pend, r.steps, r.emptyBuf, r.afterEOF, r.guardTrip, r.eofSeen = 0, 0, 0, 0, 0, 0, false, false
 	r.kept = r.kept[:0]
 	// every legitimate run needs at most one read per byte + one per zero-read + EOF
 	r.maxSteps = len(r.data) + r.ncuts + 8
@@ -188,8 +247,12 @@ func (r *scriptReader) Read(p []byte) (int, error) {
 		}
 		return 0, nil
 	}
-	if r.pendZero {
-		r.pendZero = false
+	if r.pend != 0 {
+		k := r.pend
+		r.pend = 0
+		if k == kErrAlone {
+			return 0, errRefused
+		}
 		return 0, nil
 	}
 	if r.pos >= len(r.data) {
@@ -197,6 +260,7 @@ func (r *scriptReader) Read(p []byte) (int, error) {
 		r.eofSeen = true
 		return 0, io.EOF
 	}
+	withErr := false
 	n := len(r.data) - r.pos
 	if n > len(p) {
 		n = len(p)
@@ -216,11 +280,22 @@ func (r *scriptReader) Read(p []byte) (int, error) {
 	}
 	if r.ci < r.ncuts && r.cuts[r.ci]-r.pos <= n {
 		n = r.cuts[r.ci] - r.pos
-		r.pendZero = r.zero[r.ci]
+		switch r.kind[r.ci] {
+		case kZero, kErrAlone:
+			r.pend = r.kind[r.ci]
+		case kErrWithData:
+			withErr = true
+		}
 		r.ci++
+	}
+	if r.useMask && r.pos+n < len(r.data) && r.errMask&(1<<uint(r.pos+n-1)) != 0 {
+		withErr = true
 	}
 	copy(p, r.data[r.pos:r.pos+n])
 	r.pos += n
+	if withErr {
+		return n, errRefused
+	}
 	if r.eofWith && r.pos == len(r.data) {
 		r.eofSeen = true
 		return n, io.EOF
@@ -240,7 +315,17 @@ func (r *scriptReader) describe() string {
 				last = i + 1
 			}
 		}
-		return fmt.Sprintf("reads of %v bytes", sizes)
+		d := fmt.Sprintf("reads of %v bytes", sizes)
+		if r.errMask != 0 {
+			var ends []int
+			for i := 0; i < len(r.data); i++ {
+				if r.errMask&(1<<uint(i)) != 0 {
+					ends = append(ends, i+1)
+				}
+			}
+			d += fmt.Sprintf("; the reads ending at offsets %v are returned together with the ignorable error %q", ends, errRefused.Error())
+		}
+		return d
 	case r.chunk > 0:
 		return fmt.Sprintf("every read returns at most %d bytes", r.chunk)
 	case r.ncuts == 0:
@@ -252,8 +337,13 @@ func (r *scriptReader) describe() string {
 			s += ", "
 		}
 		s += fmt.Sprintf("a read ends at stream offset %d", r.cuts[i])
-		if r.zero[i] {
+		switch r.kind[i] {
+		case kZero:
 			s += " followed by a 0-byte read"
+		case kErrWithData:
+			s += fmt.Sprintf(" and is returned together with the ignorable error %q", errRefused.Error())
+		case kErrAlone:
+			s += fmt.Sprintf(" followed by a read returning (0, %q)", errRefused.Error())
 		}
 	}
 	return s
